@@ -8,7 +8,7 @@ RULE = ('seeded random small instances and option sets, real solver, short and l
 
 
 def cases(rng, tier):
-    for _ in range(40 if tier == 'quick' else 2000):
+    for _ in range(80 if tier == 'quick' else 2000):
         c = LP.rand_case(rng, ncrit=(0, 2)); c['getter'] = rng.choice(['get_results_short', 'get_results_long']); yield 'solver_run', c
         if _ % 4 == 0:       # wide instances: project / student numbers with two digits (10, 11, 20 ...)
             I = O.gen_instance(rng, rng.randint(2, 4), rng.randint(10, 12), rng.randint(1, 3), na=rng.choice([2, 3]), twopl=False, maxlen=4, maxq=2)
